@@ -93,3 +93,25 @@ Proof.
   split; [repeat constructor|]. split; [repeat constructor; discriminate|].
   split; [discriminate|]. eexists. split; vm_compute; reflexivity.
 Qed.
+
+(* finding filtered-ignores-empty-dimension: no constants, no exclude, no derivers, well formed, value lists without
+   duplicates, keys among the combination keys - the sweep has no combinations but the filtered sweep has two *)
+Definition w_ab : sweep := plain [(s "a", [SI 1; SI 2]); (s "b", [])] None.
+
+Lemma filtered_empty_dimension_witness :
+  exists sw keys f l l',
+    wf_sweep sw = true /\ in_item_order sw = true
+    /\ consts sw = None /\ excl sw = None /\ ders sw = None
+    /\ Forall (fun kv => nodup_vals (snd kv) = true) (items sw)
+    /\ keys <> [] /\ NoDup keys /\ incl keys (concat (groups sw))
+    /\ generate sw = Ok l /\ filtered sw keys = Ok f /\ generate f = Ok l'
+    /\ l = [] /\ length l' = 2.
+Proof.
+  exists w_ab, [s "a"]. eexists. eexists. eexists.
+  split; [reflexivity|]. split; [reflexivity|]. split; [reflexivity|]. split; [reflexivity|].
+  split; [reflexivity|]. split; [repeat constructor|]. split; [discriminate|].
+  split; [apply nodup_str_NoDup; reflexivity|].
+  split; [intros k [<-|[]]; vm_compute; tauto|].
+  split; [vm_compute; reflexivity|]. split; [vm_compute; reflexivity|]. split; [vm_compute; reflexivity|].
+  split; reflexivity.
+Qed.
